@@ -239,6 +239,50 @@ theorem missing_tiles_refused {α} (z : α) (lut : List LutRow) (frames : List (
       intro h
       exact hcnt (by rw [h])
 
+/-- **Images with gaps, read without `allow_missing_combinations`** (`Image.get_total_pixel_matrix` on a TILED_SPARSE
+image): for a table on the grid without repeated positions whose frames were cut from `M`, an accepted request with
+`start ≤ end` is answered **iff** no grid tile selected by the region is missing — and the answer is then
+`M[r0-1 : r1-1, c0-1 : c1-1]`; otherwise the read is refused (never silently zero-filled). -/
+theorem sparse_read_iff_no_selected_tile_missing {α} (z : α) (M : Img α) (lut : List LutRow) (frames : List (Img α)) (R C th tw : Int)
+    (ht : 1 ≤ th) (hw : 1 ≤ tw) (hsub : ∀ r ∈ lut, pos r ∈ gridPos R C th tw) (hnd : (lut.map pos).Nodup)
+    (hcut : TableCutFrom M R C th tw lut frames)
+    (rs re cs ce : Option Int) (ai : Bool) (r0 r1 c0 c1 : Int)
+    (hstd : stdRowColIndices rs re cs ce R C ai false = .ok (r0, r1, c0, c1)) (hr : r0 ≤ r1) (hc : c0 ≤ c1) :
+    ((∀ p ∈ gridPos R C th tw, selP r0 r1 c0 c1 th tw p = true → p ∈ lut.map pos) →
+      ∃ out, readRegion z lut frames R C th tw none rs re cs ce ai false false = .ok (r1 - r0, c1 - c0, out) ∧
+        ∀ i j, 0 ≤ i → i < r1 - r0 → 0 ≤ j → j < c1 - c0 → out i j = M (r0 - 1 + i) (c0 - 1 + j)) ∧
+    ((¬ ∀ p ∈ gridPos R C th tw, selP r0 r1 c0 c1 th tw p = true → p ∈ lut.map pos) →
+      ∃ e, readRegion z lut frames R C th tw none rs re cs ce ai false false = .error e) := by
+  obtain ⟨g1, g2, g3, g4, g5, g6, g7, g8⟩ := stdRowCol_range_num hstd
+  obtain ⟨_, hiff⟩ := selected_count_le R C th tw ht hw lut hsub hnd r0 r1 c0 c1 g1 g2 hr g4 g5 g6 hc g8
+  constructor
+  · intro hall
+    obtain ⟨out, hout, hpix⟩ := readRegion_general z M lut frames R C th tw none rs re cs ce ai false false ht hw
+      (uniqueKey_none_of_nodup lut hnd) hcut r0 r1 c0 c1 hstd (Or.inr (Or.inr (hiff.mpr hall))) hr hc
+    refine ⟨out, hout, ?_⟩
+    intro i j hi0 hi1 hj0 hj1
+    apply (hpix i j hi0 hi1 hj0 hj1).1
+    -- the grid tile containing the pixel is selected, hence present
+    obtain ⟨e0, e1, e2⟩ := axis_cover_exists th (r0 + i) ht (by omega)
+    obtain ⟨f0, f1, f2⟩ := axis_cover_exists tw (c0 + j) hw (by omega)
+    have hp : (1 + th * ((r0 + i - 1) / th), 1 + tw * ((c0 + j - 1) / tw)) ∈ gridPos R C th tw := by
+      rw [mem_gridPos]
+      exact ⟨_, _, e0, axis_index_lt th R (r0 + i) ht (by omega), f0, axis_index_lt tw C (c0 + j) hw (by omega), rfl, rfl⟩
+    have hsel : selP r0 r1 c0 c1 th tw (1 + th * ((r0 + i - 1) / th), 1 + tw * ((c0 + j - 1) / tw)) = true := by
+      unfold selP
+      simp only [Bool.and_eq_true, decide_eq_true_eq]
+      omega
+    obtain ⟨r, hrm, hrp⟩ := List.mem_map.mp (hall _ hp hsel)
+    unfold pos at hrp
+    simp only [Prod.mk.injEq] at hrp
+    exact ⟨r, hrm, by unfold inTile; omega⟩
+  · intro hnot
+    apply missing_tiles_refused z lut frames R C th tw none rs re cs ce ai r0 r1 c0 c1 hstd
+    rw [expectedCount_eq]
+    intro h
+    simp only [Except.ok.injEq] at h
+    exact hnot (hiff.mp h.symm)
+
 /-! ## Masks tiled by the library read back as the same matrix -/
 
 /-- **`tile_then_read`** (TILED_SPARSE).  `Segmentation(tile_pixel_array=True)` — `get_tile_array` at the offsets of
